@@ -149,6 +149,14 @@ class C02(Prop):
                     "otherdate": "Wed, 21 Oct 2015 07:28:00 GMT", "junk": "junk"}[ir]
         if ir_value is not None:
             headers.append(("if-range", ir_value))
+        # header lines arrive in the order the client wrote them, among unrelated ones
+        order = ctx.sched.draw(4)
+        if order == 1:
+            headers.reverse()
+        elif order == 2:
+            headers = [("accept", "*/*")] + headers[::-1] + [("user-agent", "sim")]
+        elif order == 3:
+            headers = [("host", "sim")] + headers[:1] + [("accept-encoding", "identity")] + headers[1:]
         honoured = ir in ("absent", "etag", "lm")
         if plan.get("modify") and size > 0:
             from email.utils import formatdate
